@@ -795,6 +795,7 @@ func AllFilesOf(prog *load.Program, fn *ssa.Function, global string) Result {
 	}
 	// the range loop walks the first result
 	walked := false
+	var hdr *ssa.BasicBlock
 	for _, r := range *list.Referrers() {
 		if ex, ok := r.(*ssa.Extract); ok && ex.Index == 0 {
 			for _, r2 := range *ex.Referrers() {
@@ -802,10 +803,12 @@ func AllFilesOf(prog *load.Program, fn *ssa.Function, global string) Result {
 					if bo, ok := ia.Index.(*ssa.BinOp); ok && bo.Op == token.ADD {
 						if rp, ok := bo.X.(*ssa.Phi); ok && rp.Comment == "rangeindex" {
 							walked = true
+							hdr = rp.Block()
 						}
 					}
 					if cp, ok := ia.Index.(*ssa.Phi); ok && cp.Comment != "" {
 						walked = true
+						hdr = cp.Block()
 					}
 				}
 			}
@@ -815,8 +818,50 @@ func AllFilesOf(prog *load.Program, fn *ssa.Function, global string) Result {
 		res.Detail = "the listing is not the list the loop walks"
 		return res
 	}
+	// no element is passed over, except one that does not exist (a dangling link): every
+	// branch that goes straight on to the next element is a test of (*Path).Exist
+	if hdr != nil {
+		var written *ssa.BasicBlock
+		for _, b := range fn.Blocks {
+			for _, in := range b.Instrs {
+				if c, ok := in.(*ssa.Call); ok && strings.HasSuffix(calleeName(&c.Call), "Path).WriteFile") {
+					written = b
+				}
+			}
+		}
+		for _, b := range fn.Blocks {
+			if !hdr.Dominates(b) || b == hdr || len(b.Instrs) == 0 {
+				continue
+			}
+			if written != nil && written.Dominates(b) {
+				continue // the element has been processed and written
+			}
+			iff, ok := b.Instrs[len(b.Instrs)-1].(*ssa.If)
+			if !ok {
+				continue
+			}
+			for _, succ := range b.Succs {
+				next := succ == hdr
+				if !next && len(succ.Instrs) == 1 && len(succ.Succs) == 1 && succ.Succs[0] == hdr {
+					_, next = succ.Instrs[0].(*ssa.Jump)
+				}
+				if !next {
+					continue
+				}
+				cond := iff.Cond
+				if u, ok := cond.(*ssa.UnOp); ok && u.Op == token.NOT {
+					cond = u.X
+				}
+				c, ok := cond.(*ssa.Call)
+				if !ok || !strings.HasSuffix(calleeName(&c.Call), "Path).Exist") {
+					res.Detail = "an element of the listing can be passed over (" + prog.Pos(iff.Cond.Pos()) + ": " + iff.Cond.String() + ") for another reason than that the file does not exist"
+					return res
+				}
+			}
+		}
+	}
 	res.OK = true
-	res.Detail = global + ".ReadDirRecursiveFiltered(nil, FilterOutDirectories()) is walked element by element"
+	res.Detail = global + ".ReadDirRecursiveFiltered(nil, FilterOutDirectories()) is walked element by element; only files that do not exist are passed over"
 	return res
 }
 
